@@ -26,6 +26,8 @@ type pRun struct {
 	mu         sync.Mutex
 	evs        []pEvent
 	closed     bool // case log ended: later events are only watched for worker exits
+	closing    bool // engine events are no longer recorded (counted in late); receivers may still report
+	late       int
 	exits      int
 	fcancels   int
 	brDeadline int
@@ -56,7 +58,6 @@ type pRun struct {
 	quit      chan struct{}
 	wg        sync.WaitGroup // producers and receivers
 	hung      atomic.Int64
-	measuring atomic.Bool   // peak of accepted-minus-answered is sampled only while set
 	pauseStop chan struct{} // when non-nil, Stop pauses before its final select until closed
 }
 
@@ -139,6 +140,10 @@ func (r *pRun) sink(e bs.VerifEvent) {
 	if r.closed {
 		return
 	}
+	if r.closing {
+		r.late++
+		return
+	}
 	if e.Kind == "flush.cancel" {
 		r.fcancelled = true
 	}
@@ -158,7 +163,13 @@ func (r *pRun) sink(e bs.VerifEvent) {
 func (r *pRun) logEv(kind, s string, a, b int64) {
 	gid := curGoroutineID()
 	r.mu.Lock()
-	if !r.closed {
+	switch {
+	case r.closed:
+	case r.closing && kind != "h.recv":
+		if kind == "h.sbegin" || kind == "h.send" {
+			r.late++
+		}
+	default:
 		r.evs = append(r.evs, pEvent{Kind: kind, S: s, A: a, B: b, Gid: gid, T: time.Since(r.t0)})
 		if kind == "h.sbegin" && a == 1 && r.stopRes != nil && !*r.stopRes && (s == "CreateFile" || s == "Update") {
 			r.lateStore = append(r.lateStore, s+" started under a live context")
@@ -277,14 +288,7 @@ func (r *pRun) ingest(ctx context.Context, chMode string, build func(id int) *pB
 	return id, err
 }
 
-func (r *pRun) noteAccepted() {
-	u := r.accN.Add(1) - r.ansN.Load()
-	r.mu.Lock()
-	if r.measuring.Load() && u > r.peakUn {
-		r.peakUn = u
-	}
-	r.mu.Unlock()
-}
+func (r *pRun) noteAccepted() { r.accN.Add(1) }
 
 // gotAck records a value received on op's done channel; for a nil ack of a sample of ops it
 // immediately asks a query which batches are visible (C07's "already visible").
@@ -442,6 +446,7 @@ type pResult struct {
 	onceSame, onceFresh, anyVis, bad []int
 	exact                            bool
 	hung                             bool
+	discard                          bool // the engine was still producing events at the cut
 }
 
 // finish ends the case log, collects buffered acks, queries, then tears the engine down.
@@ -471,6 +476,13 @@ func (r *pRun) finish(maxWait time.Duration, exact bool) *pResult {
 			break
 		}
 	}
+	// cut the log: engine events stop being recorded (any that still arrive mean the run was not
+	// quiescent and the case is dropped); receivers get a short grace period to report values that
+	// were sent before the cut
+	r.mu.Lock()
+	r.closing = true
+	r.mu.Unlock()
+	time.Sleep(30 * time.Millisecond)
 	// ops whose call never returned (e.g. Flush on an engine that is never started)
 	r.mu.Lock()
 	for id := range r.ops {
@@ -480,12 +492,13 @@ func (r *pRun) finish(maxWait time.Duration, exact bool) *pResult {
 		}
 	}
 	r.closed = true
+	late := r.late
 	evs := append([]pEvent(nil), r.evs...)
 	started := r.started
 	exitsBefore := r.exits
 	r.mu.Unlock()
 
-	res := &pResult{exact: exact && !hung, hung: hung}
+	res := &pResult{exact: exact && !hung, hung: hung, discard: late > 0}
 	same, err1 := r.queryVisible(r.eng)
 	fresh := map[int]bool{}
 	var err2 error
